@@ -2533,9 +2533,15 @@ refill(struct evrrul_s *restrict strm)
 		int eof = echs_instant_tzof(strm->cch[i], strm->zon);
 
 		if (UNLIKELY(eof != strm->pof)) {
-			/* discrepancy, convert defo */
-			strm->cch[i] = echs_tzob_shift(
-				strm->cch[i], eof, strm->pof);
+			/* discrepancy, the candidates keep DTSTART's distance
+			 * to UTC so go back to the wall clock time they stand
+			 * for and convert that, the offset in force at the
+			 * candidate itself is the wrong one close to a
+			 * transition */
+			echs_instant_t loc = echs_tzob_shift(
+				strm->cch[i], 0, strm->pof);
+
+			strm->cch[i] = echs_instant_utc(loc, strm->zon);
 		}
 	}
 	/* otherwise sort the array, just in case */
